@@ -28,6 +28,16 @@ Viols(e, pre) ==
    ELSE {}) \cup
   (IF "C02" \in Props /\ e.op.op = "Dial" /\ e.res = "auth" /\ ~(pre.rec[e.op.k] /\ pre.cert[e.op.k] = "fresh")
      THEN {<<"C02", "unregistered-or-stale-node-authenticated">>} ELSE {}) \cup
+  (IF "C07" \in Props /\ e.op.op \in {"Rogue", "Dial"} THEN
+     (IF e.op.op = "Rogue" /\ e.res = "conn" THEN {<<"C07", "connected-to-a-peer-without-trusted-chain-or-fresh-nonce">>} ELSE {}) \cup
+     (IF e.op.op = "Dial" /\ pre.cert[e.op.k] = "pending" /\ ~pre.rec[e.op.k] /\ ~(e.res = "notauth" /\ e.obs.notAuthorizedErr)
+        THEN {<<"C07", "unregistered-dial-does-not-report-not-authorized">>} ELSE {}) \cup
+     (IF e.op.op = "Dial" /\ pre.cert[e.op.k] = "pending" /\ ~pre.rec[e.op.k] /\ ~e.obs.credsUnchanged
+        THEN {<<"C07", "unregistered-dial-changed-stored-credentials">>} ELSE {}) \cup
+     (IF e.op.op = "Dial" /\ pre.rec[e.op.k] /\ pre.cert[e.op.k] \in {"pending", "fresh"} /\ e.res # "auth"
+        THEN {<<"C07", "registered-node-cannot-connect-to-its-own-server">>} ELSE {}) \cup
+     (IF e.op.op = "Dial" /\ e.res = "auth" /\ ~e.obs.sameKey THEN {<<"C07", "certificate-key-changed-across-authorisation">>} ELSE {})
+   ELSE {}) \cup
   (IF "C14" \in Props /\ e.op.op = "Malformed" THEN
      (IF "panic" \in SeqToSet(e.obs.kinds) THEN {<<"C14", "panic-on-remote-input">>} ELSE {}) \cup
      (IF "fatal" \in SeqToSet(e.obs.kinds) THEN {<<"C14", "non-temporary-error-for-connection-failure">>} ELSE {}) \cup
@@ -46,7 +56,7 @@ Viols(e, pre) ==
      (IF e.op.op = "Connect" /\ (e.obs.statePresent # (e.op.stt = "ok")) THEN {<<"C16", "client-state-exposed-without-verified-signature">>} ELSE {})
    ELSE {})
 
-NonTrivial(e) == e.op.op \in {"Connect", "Dial", "Malformed"}
+NonTrivial(e) == e.op.op \in {"Connect", "Dial", "Malformed", "Rogue"}
 
 Init == l = 1 /\ cnt = [lines |-> 0, nontrivial |-> 0, drift |-> 0, viol |-> 0, unc |-> 0]
 
